@@ -13,4 +13,4 @@ def run(ctx):
     ctx.assumptions += ["TLC 1.8.0", "loopback UDP does not drop while at most 4 datagrams per sender are in flight (at-least-once is only required at quiescence under this assumption; at-most-once always)",
                         "payloads up to the read-buffer size (64 KiB default); datagrams too short to carry the (sender, seq) header are identified by send order"]
     return vlib.finish(ctx, "model_checking",
-                       "one case = one UDP engine life ({udp, udp4, udp6} x {127.0.0.1, ::1} x {1, 3 loops}) with 2-4 senders, 8-19 datagrams each of sizes 0..65507, handler consuming none / part / all and answering with Write and / or SendTo(another sender); every event validated by TrUdp.tla (one event per datagram, intact boundaries, no carry-over, RemoteAddr = sender, each reply once, intact, at the right socket)")
+                       "one case = one UDP engine life ({udp, udp4, udp6} x {127.0.0.1, ::1} x {1, 3 loops}, plus two lives with a 2 KiB / 4 KiB read buffer whose datagrams go up to exactly that size) with 2-4 senders, 8-19 datagrams each of sizes 0..65507, handler consuming none / part / all and answering with Write (also an empty one), and / or SendTo(another sender, also through the address object RemoteAddr handed out with its port rewritten); every event validated by TrUdp.tla (one event per datagram, intact boundaries, no carry-over, RemoteAddr = sender, each reply once, intact, at the right socket)")
